@@ -516,3 +516,137 @@ Theorem C09_bridge :
        root_of t = r -> t = owner (obj i)) ->
     Lockset.wf_trace tr -> Lockset.race_free tr.
 Proof. exact C09.bridge_race_free. Qed.
+
+(* ------------------------------------------------------------------ C11 / C10 / C08 (decode level) *)
+From Model Require Import Bufio Pool.
+From Model.proofs Require C11 C10 C08_parse.
+(* ================= C11 ================= *)
+(* key lemma: what ReadSlice returns depends on (remaining stream, window size) only *)
+Theorem C11_read_slice_abs : forall st line status rest, C11.wf st ->
+  C11.slice_spec (rd_size st) (alpha st) = (line, status, rest) ->
+  exists st', read_slice st = Ok (line, status, st') /\
+    alpha st' = rest /\ C11.wf st' /\ rd_size st' = rd_size st /\
+    (status = RsFull -> rd_live st' = [] /\ rd_pre st' = line /\ rd_err st' = false).
+Proof. exact C11.read_slice_abs. Qed.
+
+(* readLine over the concrete reader = Message.read_line over the remaining bytes *)
+Theorem C11_read_line_abs : forall st, C11.wf st ->
+  match index_byte LF (alpha st) with
+  | Some i => exists st', read_line_c st = Ok (Some (strip_cr (firstn i (alpha st))), st') /\
+                          alpha st' = skipn (S i) (alpha st) /\ C11.wf st' /\ rd_size st' = rd_size st
+  | None => (exists st', read_line_c st = Ok (None, st')) \/
+            (alpha st <> [] /\ exists st', read_line_c st = Ok (Some (alpha st), st') /\
+                                          alpha st' = [] /\ C11.wf st' /\ rd_size st' = rd_size st)
+  end.
+Proof. exact C11.read_line_c_abs. Qed.
+
+Theorem C11_framing : forall size cs, Forall C11.nonempty cs ->
+  (2 * Z.of_nat (List.length (List.concat cs)) <= make_limit)%Z ->
+  parse_conn size cs = parse_stream (S (List.length (List.concat cs))) (List.concat cs).
+Proof. exact C11.C11_framing. Qed.
+
+Theorem C11_segmentation_independent : forall size1 size2 cs1 cs2,
+  Forall C11.nonempty cs1 -> Forall C11.nonempty cs2 -> List.concat cs1 = List.concat cs2 ->
+  (2 * Z.of_nat (List.length (List.concat cs1)) <= make_limit)%Z ->
+  parse_conn size1 cs1 = parse_conn size2 cs2.
+Proof. exact C11.C11_segmentation_independent. Qed.
+
+Theorem C11_exact : forall ms tail,
+  Forall C11.wf_msg ms -> Forall (fun c => is_space c = true) tail ->
+  parse_stream (S (List.length (C11.encode_all ms ++ tail))) (C11.encode_all ms ++ tail) = map C11.expected ms.
+Proof. exact C11.C11_exact. Qed.
+
+Theorem C11_exact_segmented : forall size cs ms tail,
+  Forall C11.wf_msg ms -> Forall (fun c => is_space c = true) tail ->
+  Forall C11.nonempty cs -> List.concat cs = C11.encode_all ms ++ tail ->
+  (2 * Z.of_nat (List.length (List.concat cs)) <= make_limit)%Z ->
+  parse_conn size cs = map C11.expected ms.
+Proof. exact C11.C11_exact_segmented. Qed.
+
+Theorem C11_legacy_refuted :
+  exists size cs1 cs2, List.concat cs1 = List.concat cs2 /\ Forall C11.nonempty cs1 /\ Forall C11.nonempty cs2 /\
+    C11.line_of (read_line_legacy (new_reader size cs1)) <> C11.line_of (read_line_legacy (new_reader size cs2)) /\
+    C11.line_of (read_line_legacy (new_reader size cs1)) <> Some (s2b "SIP/2.0 404 Not Found") /\
+    C11.line_of (read_line_c (new_reader size cs1)) = Some (s2b "SIP/2.0 404 Not Found") /\
+    C11.line_of (read_line_c (new_reader size cs2)) = Some (s2b "SIP/2.0 404 Not Found").
+Proof. exact C11.C11_legacy_refuted. Qed.
+
+Theorem C11_legacy_refuted_4096 :
+  fst (fst (parse_conn_legacy_full 4096%nat [C11.long_stream])) <>
+    parse_stream (S (List.length C11.long_stream)) C11.long_stream /\
+  parse_conn 4096%nat [C11.long_stream] = parse_stream (S (List.length C11.long_stream)) C11.long_stream /\
+  List.length (parse_stream (S (List.length C11.long_stream)) C11.long_stream) = 1%nat.
+Proof. exact C11.C11_legacy_refuted_4096. Qed.
+
+(* ================= C10 ================= *)
+Theorem C10_isolated : forall stale d,
+  (2 * Z.of_nat (List.length stale) <= make_limit)%Z ->
+  udp_parse (fst (recv stale d)) (snd (recv stale d)) = parse_bytes (firstn (List.length stale) d).
+Proof. exact C10.C10_isolated. Qed.
+
+Theorem C10_isolated_fits : forall stale d, (List.length d <= List.length stale)%nat ->
+  (2 * Z.of_nat (List.length stale) <= make_limit)%Z ->
+  udp_parse (fst (recv stale d)) (snd (recv stale d)) = parse_bytes d.
+Proof. exact C10.C10_isolated_fits. Qed.
+
+Theorem C10_history : forall evs u, C10.udp_wf u ->
+  (2 * Z.of_nat (p_asize (u_pool u)) <= make_limit)%Z ->
+  snd (udp_run udp_parse u evs) = udp_spec (p_asize (u_pool u)) (queued_dgrams u) evs.
+Proof. exact C10.C10_history. Qed.
+
+Theorem C10_short_discarded : forall d,
+  match parse_bytes d with
+  | Ok m => exists hdr rest, d = hdr ++ m_body m ++ rest /\
+              (exists h0, hdr = h0 ++ [LF; LF] \/ hdr = h0 ++ [LF; CR; LF]) /\
+              get_header_int (s2b "Content-Length") m = Ok (Z.of_nat (List.length (m_body m)))
+  | Err => True
+  | Panic => False
+  end.
+Proof. exact C10.C10_short_discarded. Qed.
+
+Theorem C10_pool_exclusive : forall maxcap asize evs s',
+  prun (new_pool maxcap asize, []) evs = Some s' -> NoDup (pool_ids s').
+Proof. exact C10.C10_pool_exclusive. Qed.
+
+Theorem C10_pool_exclusive_udp : forall maxcap asize evs,
+  NoDup (udp_ids (fst (udp_run udp_parse (new_udp maxcap asize) evs))).
+Proof. exact C10.C10_pool_exclusive_udp. Qed.
+
+Theorem C10_legacy_refuted :
+  parse_bytes C10.d_second = Err /\
+  udp_parse (fst (recv C10.stale_buf C10.d_second)) (snd (recv C10.stale_buf C10.d_second)) = Err /\
+  (exists m, udp_parse_legacy (fst (recv C10.stale_buf C10.d_second)) (snd (recv C10.stale_buf C10.d_second)) = Ok m /\
+             m_body m = s2b "ABCDET-BYTES-OF-THE-EARLIER-DATAGRAM-#1!") /\
+  (exists m, udp_parse_wholebuf (fst (recv C10.stale_buf C10.d_second)) (snd (recv C10.stale_buf C10.d_second)) = Ok m /\
+             m_body m = s2b "ABCDET-BYTES-OF-THE-EARLIER-DATAGRAM-#1!").
+Proof. exact C10.C10_legacy_refuted. Qed.
+
+(* ================= C08 (parse part) ================= *)
+Theorem C08_parse_no_panic : forall size cs, Forall C11.nonempty cs ->
+  (2 * Z.of_nat (List.length (List.concat cs)) <= make_limit)%Z ->
+  snd (fst (parse_conn_full size cs)) = EndErr.
+Proof. exact C08_parse.C08_parse_no_panic. Qed.
+
+Theorem C08_parse_terminates : forall size cs, Forall C11.nonempty cs ->
+  (2 * Z.of_nat (List.length (List.concat cs)) <= make_limit)%Z ->
+  snd (fst (parse_conn_full size cs)) <> EndFuel /\ snd (fst (parse_conn_full size cs)) <> EndPanic.
+Proof. exact C08_parse.C08_parse_terminates. Qed.
+
+Theorem C08_alloc_bounded : forall size cs, Forall C11.nonempty cs ->
+  (2 * Z.of_nat (List.length (List.concat cs)) <= make_limit)%Z ->
+  (snd (parse_conn_full size cs) <= 4 * Z.of_nat (List.length (List.concat cs)) + 65536)%Z.
+Proof. exact C08_parse.C08_alloc_bounded. Qed.
+
+Theorem C08_parse_no_panic_udp : forall buf n,
+  (2 * Z.of_nat (List.length (firstn n buf)) <= make_limit)%Z ->
+  udp_parse buf n <> Panic /\
+  (snd (udp_parse_a buf n) <= 4 * Z.of_nat (List.length (firstn n buf)) + 65536)%Z.
+Proof. exact C08_parse.C08_parse_no_panic_udp. Qed.
+
+Theorem C08_legacy_refuted :
+  snd (fst (parse_conn_legacy_full 4096%nat [C08_parse.absurd "4611686018427387904"])) = EndPanic /\
+  udp_parse_legacy (C08_parse.absurd "4611686018427387904") 68%nat = Panic /\
+  snd (parse_conn_legacy_full 4096%nat [C08_parse.absurd "1073741824"]) = 1073741824%Z /\
+  parse_conn_full 4096%nat [C08_parse.absurd "4611686018427387904"] = ([], EndErr, 65536%Z) /\
+  parse_conn_full 4096%nat [C08_parse.absurd "1073741824"] = ([], EndErr, 65536%Z).
+Proof. exact C08_parse.C08_legacy_refuted. Qed.
